@@ -393,6 +393,10 @@ func (w *Writer) flushBlock() error {
 
 	// Update offset for next block
 	w.dataOffset += uint64(n)
+	if w.bloomFilterEnabled && w.currentBloomFilter != nil {
+		// The filter created above belongs to the block that starts here
+		w.currentBloomFilter.blockOffset = w.dataOffset
+	}
 
 	// Reset the block builder for next block
 	w.blockManager.Reset()
